@@ -1,6 +1,8 @@
 package sx
 
 import (
+	"sync"
+	"sync/atomic"
 	"bufio"
 	"fmt"
 	"io"
@@ -182,6 +184,18 @@ func (s *Solver) Check() SatResult {
 }
 
 // CheckAssuming: push, assert, check, pop.
+var QueryKinds sync.Map
+
+func countKind(k string) {
+	v, _ := QueryKinds.LoadOrStore(k, new(int64))
+	atomic.AddInt64(v.(*int64), 1)
+}
+
+func (s *Solver) CheckAssumingK(kind, t string) SatResult {
+	countKind(kind)
+	return s.CheckAssuming(t)
+}
+
 func (s *Solver) CheckAssuming(t string) SatResult {
 	s.Send("(push 1)")
 	s.Send("(assert " + t + ")")
